@@ -9,7 +9,6 @@ package main
 // and the element-by-element comparison of the two.
 
 import (
-	"encoding/json"
 	"fmt"
 	"math/big"
 	"sort"
@@ -454,13 +453,8 @@ func (r *rebuilder) typ(t *jType, v Variant, refs map[string]string) *MType {
 }
 
 // fromSchemaJSON rebuilds a description from the value of "__schema".
-func fromSchemaJSON(raw json.RawMessage, v Variant) (*MSchema, []Diff) {
+func fromSchemaJSON(js *jSchema, v Variant) (*MSchema, []Diff) {
 	r := &rebuilder{}
-	var js *jSchema
-	if err := json.Unmarshal(raw, &js); err != nil || js == nil {
-		r.problem("__schema", "json", "object", fmt.Sprintf("%.80s (%v)", string(raw), err))
-		return nil, r.problems
-	}
 	m := &MSchema{Types: map[string]*MType{}, Directives: map[string]*MDirective{}, Desc: js.Description}
 	refs := map[string]string{}
 	root := func(what string, t *jTypeRef) *string {
